@@ -123,6 +123,13 @@ def run(ctx):
         # the short-period radius correction lowers the radius for cos^2 i > 1/3 and raises it otherwise: both sides
         f["inc"] = ctx.rng.choice([ctx.rng.uniform(3, 50), ctx.rng.uniform(3, 50), ctx.rng.uniform(130, 177), ctx.rng.uniform(55, 125)])
         f["bstar"] = (ctx.rng.randint(20000, 99999), -1, " ")
+        if k % 3 == 2:
+            # second family: nearly circular, low, strong drag -- the modelled eccentricity runs below -1e-3 before the
+            # radius does anything (the ValueError guard of _calculate_e)
+            f["mm"] = ctx.rng.uniform(15.2, 15.9)
+            f["ecc"] = ctx.rng.randint(1, 3000)
+            f["inc"] = ctx.rng.uniform(20, 160)
+            f["bstar"] = (ctx.rng.randint(60000, 99999), -1, " ")          # about a third of these end in the ValueError
         l1, l2 = tlegen.make(**f)
         iclass, orb = sgp4common.impl_init(l1, l2)
         if iclass != "ok":
@@ -147,6 +154,22 @@ def run(ctx):
                               {"signature": "C13:decayed:%s:%d" % (l2[8:63], step * 60), "line1": l1, "line2": l2, "seconds": step * 60, "radius_km": r_km})
                 first_bad = None
                 break
+        if first_bad and first_bad >= 7:
+            # ARRAY times: the last answered instant and the first refused one in a single call must be refused too
+            # (the guards are np.any over the instants; an answer would carry a decayed state for the later instant)
+            times = ep + (np.array([first_bad - 7, first_bad]) * 60 * 10**6).astype("timedelta64[us]")
+            ctx.case(("decay-array", l1, l2, first_bad))
+            try:
+                with common.time_limit(30):
+                    pos_a, _vel_a = orb.get_position(times, normalize=False)
+                r_a = np.sqrt((np.asarray(pos_a, dtype=float) ** 2).sum(axis=0))
+                ctx.violation("an array call that includes a decayed instant was answered instead of raising",
+                              {"signature": "C13:decayed-array:%s:%d" % (l2[8:63], first_bad), "line1": l1, "line2": l2,
+                               "minutes": [first_bad - 7, first_bad], "radius_km": [float(x) for x in r_a]})
+            except common.Timeout:
+                ctx.violation("propagation of an array of instants did not return", {"signature": "C13:array-hang:%s" % l2[8:63], "line1": l1, "line2": l2})
+            except Exception:
+                pass
         if first_bad:
             # the last revolution before the first refusal, every 5 s: the satellite dips through the surface there
             for sec in range(max(0, (first_bad - 100) * 60), first_bad * 60, 5):
